@@ -9,6 +9,8 @@ RULE = ("lattice: every (nelx,nely[,nelz]) up to the bound x element-size table 
         "element, node and every point of the 5^dim local lattice (corners, centre, edges) plus Gauss points; "
         "a case is non-trivial if the grid has >1 element or dim==3; distinct by (grid,size)")
 ASSUMPTIONS = ["reference numbering/shape functions in pmc/refs/fe.py are written from the DomainDefinition docstring",
+               "'integer or array' arguments: a single node number gives one index tuple of shape (dim,), one position of "
+               "shape (dim,) and a scalar node number on the way back (no extra axis of length one)",
                "numpy integer/float arithmetic"]
 
 SIZE_TABLES = {
@@ -108,8 +110,18 @@ def execute(case):
     ref_inv = np.array([ijk[:dim] for ijk in nidx]).T
     chk(exact_equal(inv, ref_inv), 'node_indices_inverse', got=inv, ref=ref_inv)
     for n in (0, dom.nnodes - 1, dom.nnodes // 2):
-        one = dom.get_node_indices(n)
-        chk(exact_equal(np.asarray(one).flatten(), ref_inv[:, n]), 'node_indices_scalar', n=n, got=one)
+        # a single node number (python int or numpy integer) gives ONE index tuple (i, j[, k]), a single position and
+        # a scalar number on the way back -- not arrays with an extra axis of length one
+        for nn_ in (int(n), np.int64(n)):
+            one = dom.get_node_indices(nn_)
+            chk(exact_equal(np.asarray(one), ref_inv[:, n]), 'node_indices_scalar', n=n, got=one,
+                got_shape=list(np.shape(one)), want_shape=[dim])
+            back = dom.get_nodenumber(*one)
+            chk(np.ndim(back) == 0 and int(np.asarray(back).reshape(-1)[0]) == n, 'node_number_roundtrip_scalar', n=n,
+                got=back, got_shape=list(np.shape(back)))
+            p1 = np.asarray(dom.get_node_position(nn_))
+            chk(p1.shape == (dim,) and alg_close(p1, fe.node_positions(nx, ny, nz, sz)[:, n]), 'node_position_scalar',
+                n=n, got=p1, got_shape=list(p1.shape))
     sel = np.arange(dom.nnodes)[::-1]
     chk(exact_equal(dom.get_node_indices(sel), ref_inv[:, sel]), 'node_indices_array')
 
